@@ -794,6 +794,16 @@ func sessExplore(c *core.Ctx, class string) {
 				sr.Violations = append(sr.Violations, v)
 			}
 		}
+		if class == "invariant" && len(sr.Violations) == 0 {
+			// the same history as a zero-copy packet loop delivers it: one receive buffer, overwritten after every call
+			o2 := o
+			o2.poison = 2
+			for _, v := range runSession(alpha, hist, o2).violations {
+				if strings.HasPrefix(v, "invariant|") {
+					sr.Violations = append(sr.Violations, v+" (history delivered through one reused receive buffer)")
+				}
+			}
+		}
 		if class == "alias" && len(sr.Violations) == 0 {
 			poisons := []int{2}
 			if c.Thorough() {
@@ -899,6 +909,15 @@ func sessReplayer(data []byte) string {
 			return v
 		}
 	}
+	if r.Class == "invariant" {
+		o2 := o
+		o2.poison = 2
+		for _, v := range runSession(alpha, r.Hist, o2).violations {
+			if strings.HasPrefix(v, "invariant|") {
+				return v
+			}
+		}
+	}
 	if r.Class == "alias" {
 		for _, poison := range []int{1, 2} {
 			o2 := o
@@ -934,7 +953,6 @@ func sessDriver(id, class, rule string) *Driver {
 
 func init() {
 	Registry["C04"] = sessDriver("C04", "model", "explicit-state BFS over event histories (frames from 5 MAC classes x 10 addresses, ARP incl. sender!=ethernet source, DHCP frames, DHCPv4Update, offers, capture/release, name updates, virtual-time ticks); after every transition FindIP/GetHosts/IPAddrs/FindByMAC/FindMACEntry are compared with the reference model built from the rules of the statement")
-	Registry["C05"] = sessDriver("C05", "invariant", "same exploration as C04; after every transition the structural invariant (index<->MAC list bijection, same pointer identity, unique MACs, host MAC == entry MAC, online host => online MAC entry, PrintTable does not panic) is evaluated on the exported tables")
+	Registry["C05"] = sessDriver("C05", "invariant", "same exploration as C04, every history delivered twice (private buffers, and one receive buffer overwritten after every call as a zero-copy packet loop does); after every transition the structural invariant (index<->MAC list bijection, same pointer identity, unique MACs, host MAC == entry MAC, online host => online MAC entry, PrintTable does not panic) is evaluated on the exported tables")
 	Registry["C06"] = sessDriver("C06", "notify", "same exploration as C04 with Notify after every Parse and the channel drained after every step; exactly-once accounting per address: content equals tracked state, no duplicate, nothing lost for the frame's host, superseded/aged addresses reported offline, offline-before-online order")
-	Registry["C10"] = sessDriver("C10", "alias", "same exploration as C04, every history executed again on fresh instances with one shared receive buffer that is scribbled after every call (quick: pattern 0xa5; thorough: 0x00 and 0xa5) and compared with the run on private immutable buffers; notifications, emitted frames and table snapshots must be identical step by step")
 }
